@@ -74,6 +74,8 @@ type srvRun struct {
 	kind     map[int]string
 	released map[int]bool
 	uniform  bool
+	tagOf    map[int]int
+	dupPend  map[int]int // tag -> deliberate duplicates sent and not yet answered
 }
 
 func (r *srvRun) log(e srvEvent) {
@@ -310,7 +312,8 @@ func (r *srvRun) waitFor(d time.Duration, pred func() bool) bool {
 func runSrvScenario(sc srvScenario, scn int, res *hx.Result) []srvEvent {
 	r := &srvRun{sc: scn, sent: map[int]p9p.Message{}, gates: map[int]chan struct{}{}, ctxs: map[int]context.Context{},
 		entered: map[int]bool{}, honour: map[int]bool{}, faultCh: make(chan struct{}),
-		cout: map[int]int{}, fl: map[int]int{}, flOld: map[int]int{}, kind: map[int]string{}, released: map[int]bool{}}
+		cout: map[int]int{}, fl: map[int]int{}, flOld: map[int]int{}, kind: map[int]string{}, released: map[int]bool{},
+		tagOf: map[int]int{}, dupPend: map[int]int{}}
 	r.cond = sync.NewCond(&r.mu)
 	r.uniform = scn%2 == 1
 	cli, srv := gconn.Pair(0)
@@ -369,6 +372,10 @@ func runSrvScenario(sc srvScenario, scn int, res *hx.Result) []srvEvent {
 			r.mu.Lock()
 			// client view
 			switch kind {
+			case "dup":
+				if r.dupPend[t] > 0 {
+					r.dupPend[t]--
+				}
 			case "res", "err", "other":
 				r.cout[t] = 0
 			case "rflush", "unk":
@@ -446,6 +453,10 @@ func runSrvScenario(sc srvScenario, scn int, res *hx.Result) []srvEvent {
 				msg = srvMessage(st.I, r.uniform)
 			}
 			r.sent[st.I] = msg
+			r.tagOf[st.I] = st.Tag
+			if dup {
+				r.dupPend[st.Tag]++
+			}
 			r.kind[st.I] = st.Kind
 			r.honour[st.I] = st.I%2 == 0
 			if !dup {
@@ -468,8 +479,13 @@ func runSrvScenario(sc srvScenario, scn int, res *hx.Result) []srvEvent {
 			r.mu.Unlock()
 		case "release":
 			r.mu.Lock()
-			// a held original stays held while a duplicate of it is unanswered (kept simple: never release
-			// while any duplicate is unanswered on its tag -> handled by scenario order; here just release)
+			// environment discipline of the model: the original of a deliberate duplicate stays held until the
+			// duplicate has been answered (otherwise the "duplicate" is legitimately served as a new request)
+			if !faulted && !r.waitFor(2*time.Second, func() bool { return r.dupPend[r.tagOf[st.I]] == 0 }) {
+				r.mu.Unlock()
+				res.Add("steps_skipped", 1)
+				continue
+			}
 			r.released[st.I] = true
 			g := r.gates[st.I]
 			if g == nil {
@@ -498,6 +514,14 @@ func runSrvScenario(sc srvScenario, scn int, res *hx.Result) []srvEvent {
 	if !faulted {
 		// quiescence: release everything, wait until nothing is outstanding in the client's view
 		r.mu.Lock()
+		r.waitFor(2*time.Second, func() bool {
+			for _, n := range r.dupPend {
+				if n > 0 {
+					return false
+				}
+			}
+			return true
+		})
 		for i := range r.sent {
 			r.released[i] = true
 			g := r.gates[i]
